@@ -66,6 +66,10 @@ func peerHandshake(conn net.Conn, sw *Switch) (*NodeInfo, error) {
 	if err2 != nil {
 		return nil, err2
 	}
+	// the node info comes from the peer: a missing key would make every later use of it a call on a nil interface
+	if peerNodeInfo.PubKey == nil {
+		return nil, fmt.Errorf("peer node info carries no public key")
+	}
 	if err := sw.AuthByCA(peerNodeInfo); err != nil {
 		return nil, err
 	}
